@@ -146,7 +146,31 @@ def real_run(case):
             op2 = ["steady", None if not got or got[0] is None else fs(got[0])]
         ops.append(op2)
     snaps.append(_snapshot(sim))
-    return {"outs": outs, "snaps": snaps, "ops": ops}
+    out = {"outs": outs, "snaps": snaps, "ops": ops}
+    if case.get("fluxes"):
+        out["fluxes"] = _flux_check(sim)
+    return out
+
+
+def _flux_check(sim):
+    """C14: fluxes reported inside a segment use that segment's parameter values.  Done last: computing
+    the fluxes writes the segments' parameters back into the model."""
+    try:
+        r = sim.get_result().unwrap_or_err()
+    except Exception:  # noqa: BLE001
+        return "segment-pars"
+    try:
+        fl = r.fluxes
+        rows = [(p, float(x), float(z)) for df, p in zip(r.raw_variables, r.raw_parameters)
+                for x, z in zip(df["x"], df["z"])]
+        if len(rows) != len(fl):
+            return f"fluxes have {len(fl)} rows for {len(rows)} states"
+        for i, ((p, x, z), vx, vz) in enumerate(zip(rows, fl["vx"], fl["vz"])):
+            if float(vx) != _rate(p["k"], x, p["u"]) or float(vz) != _rate(p["k"], z, p["w"]):
+                return f"row {i}: fluxes {float(vx)!r}, {float(vz)!r} are not the rate laws under the segment's parameters {p}"
+    except Exception as e:  # noqa: BLE001
+        return "fluxes raise " + type(e).__name__
+    return "segment-pars"
 
 
 _pool = None
@@ -304,6 +328,8 @@ def assemble(case, real, drv):
     R = {"outs": real["outs"], "snaps": R_snaps}
     M = {"outs": drv["impl"]["outs"], "snaps": M_snaps}
     S = {"outs": drv["spec"]["outs"], "snaps": S_snaps}
+    if "fluxes" in real:
+        R["fluxes"], M["fluxes"], S["fluxes"] = real["fluxes"], "segment-pars", "segment-pars"
     return R, M, S, drv["okhist"]
 
 
@@ -425,6 +451,11 @@ def alphabet():
     ops += [["steady", "?"], ["par", [["k", "2"]]], ["par", [["u", "0"], ["k", "1"]]],
             ["var", [["x", "1"]]], ["var", [["z", "3"]]], ["clear"]]
     return ops
+
+
+def small_alphabet():
+    return [["sim", "1", 2], ["sim", "2", 2], ["tc", ["1", "2"]], ["tc", ["3/2", "4"]], ["steady", "?"],
+            ["par", [["k", "2"]]], ["var", [["x", "1"]]], ["var", [["z", "3"]]], ["clear"]]
 
 
 def exhaustive_cases(max_len, alpha=None):
@@ -574,7 +605,7 @@ def setup(ctx):
     ctx.rule = (
         "op histories over simulate / simulate_time_course / simulate_to_steady_state / update_parameters / "
         "update_variable(s) / clear_results on x'=-kx+u, z'=-kz+w with times on a dyadic grid; exhaustive over all "
-        "histories of length <= 3 (quick: <= 2 plus a sampled third) on a 17-op alphabet with a 5-value time alphabet, "
+        "histories of length <= 3 on a 17-op alphabet with a 5-value time alphabet (thorough: also length 4 on 9 ops), "
         "random for lengths 3..8; distinct = distinct (parameters, history); non-trivial = at least two recorded segments"
     )
     ctx.assumptions += [
@@ -590,19 +621,17 @@ def setup(ctx):
 def run(ctx):
     setup(ctx)
     thorough = ctx.tier == "thorough"
-    widen = (not ctx.proof_ok) or thorough
     # 1. exhaustive stratum
-    ex = list(exhaustive_cases(3 if widen else 2))
-    if not widen:
-        allc = list(exhaustive_cases(3))
-        ex += ctx.rng.sample(allc[len(ex):], 900)
+    ex = list(exhaustive_cases(3))
+    if thorough:  # all length-4 histories over a reduced alphabet
+        ex += [c for c in exhaustive_cases(4, alpha=small_alphabet()) if len(c["ops"]) == 4]
     ctx.exhaustive = True
-    for i in range(0, len(ex), 400):
-        process(ctx, ex[i:i + 400])
+    for i in range(0, len(ex), 800):
+        process(ctx, ex[i:i + 800])
         if len(ctx.violations) > 10:
             return
     # 2. random longer histories
-    n = ctx.n(1500, 60000)
+    n = ctx.n(1500, 60000) * (1 if ctx.proof_ok or thorough else 4)
     done = 0
     while done < n and len(ctx.violations) <= 10:
         cases = [gen_random(ctx.rng) for _ in range(min(400, n - done))]
